@@ -131,7 +131,18 @@ def small_alphabet_job(name, N):
     j.bounded_note = 'value obligations only, exhaustive over all NUL-terminated strings of at most %d bytes over the alphabet {%s}' % (N, ' '.join(chars))
     return j
 
+def small_alphabet_safety_job(name, N):
+    # the same strings with the full instrumentation (bounds / pointer / overflow obligations); the conversion buffer is the tail of a static array (a write past the requested size leaves the array)
+    chars = ALPHABETS[name]
+    cond = ' || '.join(["s[k] == '%s'" % c for c in chars] + ['s[k] == 0'])
+    j = job('stringToRational.safety_%s' % name, 'opensmt::stringToRational', h_conv_class(cond), N, weight=40)
+    j.defines = j.defines + ('OSMT_STATIC_MALLOC', 'OSMT_STATIC_MALLOC_END')
+    j.bounded_note = 'exhaustive over all NUL-terminated strings of at most %d bytes over the alphabet {%s}' % (N, ' '.join(chars))
+    return j
+
 def jobs(tier, N=None):
+    if os.environ.get('C16_TRY_SAFE'):
+        nm, n = os.environ['C16_TRY_SAFE'].split(','); return [small_alphabet_safety_job(nm, int(n))]
     if os.environ.get('C16_TRY_ALPHA'):
         nm, n = os.environ['C16_TRY_ALPHA'].split(','); return [small_alphabet_job(nm, int(n))]
     N = N or (4 if tier == 'quick' else 5)
@@ -141,7 +152,8 @@ def jobs(tier, N=None):
             #  buffer and shift-add value arithmetic, still does not finish in 30 min)
             Job('normalize.base', TU, 'opensmt::normalize', tier='R', header='contracts/C16/normalize.h', harness=H_BASE, enforce=False, pre_includes=('stubs/gmp_types.h',),
                 min_obligations=1, default_unwind=4, proves='normalize hands the literal to GMP with base 10')] + \
-           [small_alphabet_job(nm, 8 if tier == 'quick' else 10) for nm in ('01dot', '07slash', 'minus03dot', '09dotslash')]
+           [small_alphabet_job(nm, 8 if tier == 'quick' else 10) for nm in ('01dot', '07slash', 'minus03dot', '09dotslash')] + \
+           [small_alphabet_safety_job(nm, 6 if tier == 'quick' else 8) for nm in ('01dot', '09dotslash')]
     # print_job() (ArithLogic::termToSMT2StringImpl + FastRational::get_str over a concrete std::string/ostream model) is NOT registered: see DESIGN 3 C16
 
 def info(tier, results):
